@@ -2,6 +2,7 @@ package jschema
 
 import (
 	stdBytes "bytes"
+	"encoding/json"
 
 	"github.com/jsightapi/jsight-schema-core/bytes"
 	"github.com/jsightapi/jsight-schema-core/errs"
@@ -79,9 +80,8 @@ func (b *exampleBuilder) buildExampleForObjectNode(node *ischema.ObjectNode) ([]
 		}
 		first = false
 
-		buf.WriteByte('"')
 		buf.Write(k)
-		buf.WriteString(`":`)
+		buf.WriteByte(':')
 		buf.Write(ex)
 	}
 	buf.WriteByte('}')
@@ -89,9 +89,12 @@ func (b *exampleBuilder) buildExampleForObjectNode(node *ischema.ObjectNode) ([]
 	return append([]byte(nil), buf.Bytes()...), nil
 }
 
+// buildObjectKey returns the key as JSON text, quotes included.
 func (b *exampleBuilder) buildObjectKey(k ischema.ObjectNodeKey) ([]byte, error) {
 	if !k.IsShortcut {
-		return []byte(k.Key), nil
+		// The key is kept decoded; it has to be encoded again: a quote, a
+		// backslash or a control character in it would break the JSON.
+		return json.Marshal(k.Key)
 	}
 
 	typ, ok := b.types[k.Key]
@@ -103,7 +106,10 @@ func (b *exampleBuilder) buildObjectKey(k ischema.ObjectNodeKey) ([]byte, error)
 	if err != nil {
 		return nil, err
 	}
-	return stdBytes.Trim(ex, `"`), nil
+	quoted := make([]byte, 0, len(ex)+2)
+	quoted = append(quoted, '"')
+	quoted = append(quoted, stdBytes.Trim(ex, `"`)...)
+	return append(quoted, '"'), nil
 }
 
 func (b *exampleBuilder) buildExampleForArrayNode(node *ischema.ArrayNode) ([]byte, error) {
